@@ -405,8 +405,10 @@ pub fn run_case(line: &str) -> String {
             }
             format!("ctor:{}", out.join(","))
         }
-        "UA6" | "UA4" => {
-            let r1 = match UdpSocket::bind("[::1]:0") {
+        "UA6" | "UA4" | "UK" => {
+            // UK: both listeners are IPv4; the sending socket handed to the sink is already CONNECTED to the second one, the
+            // sink is constructed with the address of the first: datagrams go to the address given at construction
+            let r1 = match UdpSocket::bind(if t[0] == "UK" { "127.0.0.1:0" } else { "[::1]:0" }) {
                 Ok(s) => s,
                 Err(_) => return "noipv6".to_string(),
             };
@@ -416,11 +418,16 @@ pub fn run_case(line: &str) -> String {
             // UA6: the sender is a dual-stack socket (both addresses reachable); UA4: the sender is an IPv4 socket, which
             // cannot reach the first (IPv6) address of the list: every send is refused at once - and that is the answer,
             // the second address is not a fallback
-            let send = match UdpSocket::bind(if t[0] == "UA4" { "127.0.0.1:0" } else { "[::]:0" }) {
+            let send = match UdpSocket::bind(if t[0] == "UA6" { "[::]:0" } else { "127.0.0.1:0" }) {
                 Ok(s) => s,
                 Err(_) => return "noipv6".to_string(),
             };
-            let addrs: Vec<SocketAddr> = vec![r1.local_addr().unwrap(), r2.local_addr().unwrap()];
+            let addrs: Vec<SocketAddr> = if t[0] == "UK" {
+                send.connect(r2.local_addr().unwrap()).expect("connect");
+                vec![r1.local_addr().unwrap()]
+            } else {
+                vec![r1.local_addr().unwrap(), r2.local_addr().unwrap()]
+            };
             let sink: Box<dyn MetricSink + Send + Sync + RefUnwindSafe> = if t[1] == "u" {
                 match UdpMetricSink::from(&addrs[..], send) {
                     Ok(s) => Box::new(s),
